@@ -1,7 +1,7 @@
 (* C11 — obligations (statements only; proofs in Proofs.v) *)
 From Coq Require Import ZArith NArith List Bool Permutation Lia.
 Import ListNotations.
-From OBI.C11 Require Import Model Spec Proofs Multiset MultisetStrand MultisetCirc MultisetCircSym Fragments FragPcr.
+From OBI.C11 Require Import Model ModelQ Spec Proofs ProofsQ Multiset MultisetStrand MultisetCirc MultisetCircSym Fragments FragPcr.
 Open Scope Z_scope.
 
 (* On a linear template _Pcr never reaches its log.Fatal (every Subsequence call is in range). *)
@@ -272,6 +272,122 @@ Example C11_circular_short_template_example :
         ([1;2]%N, false, [0;1;2;3;0;1;2;3;0]%N, 0%N, [2;3;0]%N, 0%N)].
 Proof. vm_compute. reflexivity. Qed.
 
+
+(* ---------------------------------------------------------------------------------------------------------------------
+   Round 3 — what a record inherits from its template (Phred scores, pairing_mismatches): PROVENANCE.
+   ModelQ.v pairs every record of the model of _Pcr with the list of template positions its bases were read from, obtained
+   by cutting the list of positions 0..L-1 with the very function (_Segment / Subsequence) and the very bounds that cut the
+   bases. Tied to the code on every run: the scores of the observed records must be the scores found at those positions and
+   their pairing_mismatches must point at them (qmismatches). *)
+
+(* Cutting commutes with relabelling the letters: _Segment / Subsequence only move letters around (they never look at
+   them), so whatever is attached to the positions of the template travels with the bases. *)
+Theorem C11_segment_relabel : forall (f : N -> N) l from to c,
+  segment (map f l) from to c = option_map (map f) (segment l from to c).
+Proof. exact segment_map. Qed.
+
+(* Every record has a provenance, of its own length; every base of a record of direction forward is the base of the template
+   at the position its provenance gives, every base of a record of direction reverse is the complement of that base; all
+   positions lie inside the template. No hypothesis on the options nor on the template. *)
+Theorem C11_provenance : forall o t l, pcr o t = Some l ->
+  exists ps, pcr_prov o t = Some ps /\ pcr_with_prov o t = Some (combine l ps) /\ length ps = length l /\
+             Forall2 (rec_ok t) l ps.
+Proof. exact provenance. Qed.
+
+Theorem C11_provenance_member : forall o t ms a P, pcr_with_prov o t = Some ms -> In (a, P) ms ->
+  amp_seq a = read t (amp_dir a) P /\ Forall (fun p => (N.to_nat p < length t)%nat) P.
+Proof. exact provenance_in. Qed.
+
+Theorem C11_provenance_records : forall o t ms, pcr_with_prov o t = Some ms -> pcr o t = Some (map fst ms).
+Proof. exact pcr_with_prov_fst. Qed.
+
+(* Scores: base k and score k of a record come from the same position of the template (the score list of a record is
+   quals_of q P: what the check compares with the scores of the real records). *)
+Theorem C11_qualities_aligned : forall t q (d : bool) P,
+  combine (read t d P) (quals_of q P) =
+  map (fun p => (if d then letter t p else comp_nuc (letter t p), nth (N.to_nat p) q 0%N)) P.
+Proof. exact quals_aligned. Qed.
+
+(* pairing_mismatches: a position j accepted by the check for a mismatch recorded at position p of the template designates,
+   in the record, the very base p designated in the template (its complement when the record is of direction reverse); and a
+   mismatch may be dropped only when the record does not show its position (shows = false), see pm_agrees. *)
+Theorem C11_mismatch_position_same_base : forall t (d : bool) P p j s, s = read t d P -> designates P p j = true ->
+  nth (Z.to_nat (j - 1)) s 0%N = (if d then (fun x => x) else comp_nuc) (nth (Z.to_nat (p - 1)) t 0%N).
+Proof. exact designates_same_base. Qed.
+
+Theorem C11_mismatch_shown_iff : forall P p,
+  shows P p = true <-> exists k, (k < length P)%nat /\ Z.of_N (nth k P 0%N) = p - 1.
+Proof. exact shows_iff. Qed.
+
+(* Closed forms: on a linear template the provenance of a cut [from, to) is the run from .. to-1; on a circular one the k-th
+   base comes from position (from + k) mod L, however many turns the segment makes (flanked amplicon longer than its circle:
+   a position is then shown several times). *)
+Theorem C11_provenance_linear : forall n a b, 0 <= a -> a < b -> b <= Z.of_nat n ->
+  segment (tpos n) a b false = Some (map N.of_nat (seq (Z.to_nat a) (Z.to_nat (b - a)))).
+Proof. exact segment_tpos_linear. Qed.
+
+Theorem C11_provenance_circular : forall n a b, (0 < n)%nat -> 0 < b - a ->
+  segment (tpos n) a b true = Some (map (fun k => Z.to_N ((a + Z.of_nat k) mod Z.of_nat n)) (seq 0 (Z.to_nat (b - a)))).
+Proof. exact segment_tpos_circular. Qed.
+
+(* obiseq.Subsequence called directly (vh c11ops ties `subseq` to it, error returns included): exact domain on a linear
+   sequence; the reading along the circle on the domain _Segment uses; a negative start is always refused. *)
+Theorem C11_subsequence_linear_domain : forall t a b,
+  subseq t a b false = if (0 <=? a) && (a <? b) && (b <=? len t) then Some (slice t a b) else None.
+Proof. exact subseq_linear_spec. Qed.
+
+Theorem C11_subsequence_circular : forall t a b, 0 < len t -> 0 <= a -> a < b -> b <= a + len t ->
+  subseq t a b true = Some (circ t a (b - a)).
+Proof. exact subseq_circular_spec. Qed.
+
+Theorem C11_subsequence_negative_start : forall t a b c, a < 0 -> subseq t a b c = None.
+Proof. exact subseq_negative_start. Qed.
+
+(* non-vacuity: records with their provenance on both strands of a linear template (flank 1, clipped at neither end) and on a
+   13-base circle whose flanked records go over the origin *)
+Example C11_provenance_nonvacuous :
+  (exists ms, pcr_with_prov (mko [1;2;4;8]%N [4;4;2;2]%N 0 0 0 0 (Some 1) false false)
+                [3;3;0;1;2;3;0;0;0;2;2;1;1;3;3;0;2;2;1;1;3;0;1;2;3;0]%N = Some ms /\
+     In (([3;0;1;2;3;0;0;0;2;2;1;1;3]%N, true, [0;1;2;3]%N, 0%N, [2;2;1;1]%N, 0%N), [1;2;3;4;5;6;7;8;9;10;11;12;13]%N) ms /\
+     In (([3;0;1;2;3;0;2;2;1;1;3]%N, false, [0;1;2;3]%N, 0%N, [2;2;1;1]%N, 0%N), [25;24;23;22;21;20;19;18;17;16;15]%N) ms) /\
+  pcr_with_prov (mko [1;2;4;8]%N [4;4;2;2]%N 0 0 0 0 (Some 2) false true) [2;3;0;0;0;2;2;1;1;3;3;0;1]%N =
+  Some [(([3;3;0;1;2;3;0;0;0;2;2;1;1;3;3]%N, true, [0;1;2;3]%N, 0%N, [2;2;1;1]%N, 0%N), [9;10;11;12;0;1;2;3;4;5;6;7;8;9;10]%N);
+        (([3;3;0;1;2;3;0;0;2;2;1;1;3;3]%N, false, [0;1;2;3]%N, 0%N, [2;2;1;1]%N, 0%N), [3;2;1;0;12;11;10;9;8;7;6;5;4;3]%N)].
+Proof.
+  split; [|vm_compute; reflexivity].
+  eexists. split; [vm_compute; reflexivity|]. cbn; auto 10.
+Qed.
+
+
+(* The arithmetic of the code itself (obiseq._subseqMutation, tied to Subsequence called directly: mkm cases) against the
+   provenance: in a window of n <= L bases starting at offset shift of a sequence of L bases, a mismatch recorded at p is
+   moved to a position that designates the same base, and it is dropped only when the window does not show position p. *)
+Theorem C11_mutation_shift_sound : forall p shift L n j, 0 < L -> 0 <= shift < L -> 0 <= n <= L ->
+  mut_pos p shift L n = Some j -> 1 <= p <= L /\ designates (walk L shift n) p j = true.
+Proof. exact mut_pos_sound. Qed.
+
+Theorem C11_mutation_shift_complete : forall p shift L n, 0 < L -> 0 <= shift < L -> 0 <= n <= L -> 1 <= p <= L ->
+  mut_pos p shift L n = None -> shows (walk L shift n) p = false.
+Proof. exact mut_pos_complete. Qed.
+
+(* ... the windows are what _Segment / Subsequence cut out of the positions (provenance), linear and circular *)
+Theorem C11_provenance_walk_linear : forall n a b, 0 <= a -> a < b -> b <= Z.of_nat n ->
+  segment (tpos n) a b false = Some (walk (Z.of_nat n) a (b - a)).
+Proof. exact segment_tpos_walk_linear. Qed.
+
+Theorem C11_provenance_walk_circular : forall n a b, (0 < n)%nat -> 0 < b - a ->
+  segment (tpos n) a b true = Some (walk (Z.of_nat n) (a mod Z.of_nat n) (b - a)).
+Proof. exact segment_tpos_walk_circular. Qed.
+
+(* obiseq._revcmpMutation: position lseq - p + 1 of the reverse complement shows the complement of the base at p *)
+Theorem C11_mutation_revcomp_same_base : forall s p, 1 <= p <= len s ->
+  nth (Z.to_nat (rev_pos (len s) p - 1)) (rc s) 0%N = comp_nuc (nth (Z.to_nat (p - 1)) s 0%N).
+Proof. exact rev_pos_same_base. Qed.
+
+Example C11_mutation_shift_nonvacuous :
+  mut_pos 8 6 17 5 = Some 2 /\ mut_pos 2 6 17 5 = None /\ mut_pos 1 14 23 19 = Some 10 /\ walk 23 14 19 = [14;15;16;17;18;19;20;21;22;0;1;2;3;4;5;6;7;8;9]%N.
+Proof. vm_compute. repeat split; reflexivity. Qed.
+
 Print Assumptions C11_linear_never_fatal.
 Print Assumptions C11_sound.
 Print Assumptions C11_complete.
@@ -301,3 +417,20 @@ Print Assumptions C11_fragments_wf.
 Print Assumptions C11_fragmented_sound.
 Print Assumptions C11_fragmented_complete.
 Print Assumptions C11_fragmented_impl.
+Print Assumptions C11_segment_relabel.
+Print Assumptions C11_provenance.
+Print Assumptions C11_provenance_member.
+Print Assumptions C11_provenance_records.
+Print Assumptions C11_qualities_aligned.
+Print Assumptions C11_mismatch_position_same_base.
+Print Assumptions C11_mismatch_shown_iff.
+Print Assumptions C11_provenance_linear.
+Print Assumptions C11_provenance_circular.
+Print Assumptions C11_subsequence_linear_domain.
+Print Assumptions C11_subsequence_circular.
+Print Assumptions C11_subsequence_negative_start.
+Print Assumptions C11_mutation_shift_sound.
+Print Assumptions C11_mutation_shift_complete.
+Print Assumptions C11_provenance_walk_linear.
+Print Assumptions C11_provenance_walk_circular.
+Print Assumptions C11_mutation_revcomp_same_base.
